@@ -681,6 +681,11 @@ func (c *c02) genRandom(seed int64, base, n int) {
 			if variant != "random" {
 				// the document was generated for another shape: regenerate it for the labelled one
 				o.vmVar = variant
+				if oneDefectClass(variant) {
+					// a labelled document expects no other failure than its own class's (an unknown member under
+					// DisallowUnknownField would be reported with another error class than the recorded defect's)
+					o.Disallow = false
+				}
 				x = genDoc(r, c.cur.From, c.cur, 0, o)
 				fixJX(&x)
 			}
